@@ -24,6 +24,12 @@ pub mod named {
     pub type Migr = sv::MigrateMsg<u64>;
     pub type IfgExec = ifg::IfgExecMsg<u32>;
     pub type IfgQuery = ifg::IfgQueryMsg<Digit>;
+    /// parameter used only through `resp=P` / only in a query argument (second generic contract)
+    pub type GsQuery = crate::generic::gs::sv::QueryMsg<Digit, u32>;
+    pub type GsInst = crate::generic::gs::sv::InstantiateMsg;
+    pub fn gs_constructible() -> (GsQuery, GsQuery) {
+        (GsQuery::Value {}, GsQuery::Other { q: 7u32 })
+    }
 
     /// ... and they are the types the contract's API aliases resolve to.
     pub fn same_as_api() {
